@@ -1213,6 +1213,12 @@ func (c *Ctx) c14Goroutines(loopFn *ssa.Function, copiers []*ssa.Function) {
 			continue
 		}
 		eb := errorEdgeBlocks(read)
+		if len(eb) == 0 {
+			// the read made by a step helper that reports a failed read as ok == false
+			if inner, _ := c.boolStepReader(flow.StaticCallee(read)); inner != nil {
+				eb = falseEdgeBlocks(read)
+			}
+		}
 		bad := len(eb) == 0
 		for b := range eb {
 			if p := flow.PathAvoiding(loopFn, b.Instrs[0], func(in ssa.Instruction) bool { return in == ssa.Instruction(read) }, nil); p != nil {
